@@ -8,6 +8,11 @@ ids = [p["id"] for p in props]
 HOOK_COMMITS = ["332865e1b", "bf49db00e", "0b99e4fc0", "68bfb6d5a"]
 
 CHECKS = {
+ "C14": dict(
+   level="exploration", design="§4 C14",
+   technique="runtime monitoring: client-boundary history of DDL/DML/SET statements with uniquely identified rows, checked offline against a sequential model of catalog + table contents + settings; histories run under the deterministic executor (random/lifo/fifo/pct schedules, forced yields) and the production thread pool",
+   text="Random histories (30-150 statements, 1-3 sessions of one engine, statements interleaved) over schemas, temp tables in 3 layouts, views, CREATE TABLE AS, INSERT VALUES / INSERT SELECT (from the target itself, from other tables, wrong arity, failing on the k-th row), SET/RESET/RESET ALL/invalid SET, appends and self-inserts crossing the 32768-row flush threshold. Every row carries a unique id; at random points and at the end the object lists, table contents, view contents, DESCRIBE output and settings of every session are diffed against the model, and each statement's ok/error class and reported row count must match.",
+   note="Only temp objects exist in this engine build (no persistent catalog), so 'catalog' means the session's temp catalog. Error messages are not compared; dropping a non-empty schema has no documented rule and is not generated. Two defects found by this check were repaired (self-insert reads own writes / never terminates; VALUES rounds later decimal rows)."),
  "C17": dict(
    level="exploration", design="§4 C17",
    technique="runtime monitoring: RFC-4180 reference oracle (Python csv configured with the dialect/header decision reported by hook H3) over executions of read_csv; chunking-invariance monitor (one file under ChaosFs read sizes 1..4097, Pending, batch sizes, partitions must give identical rows)",
